@@ -612,7 +612,8 @@ func runCheck(prop, tier, repo, verif string, verbose bool, tmo int) int {
 	}
 	dir := scratchDir()
 	defer os.RemoveAll(dir)
-	timeout := 10 * time.Second
+	// claimed obligations discharged within 5 s when the lock was taken; the check allows them four times that
+	timeout := 20 * time.Second
 	if tier == "thorough" {
 		timeout = 120 * time.Second
 	}
@@ -870,8 +871,8 @@ func runLock(props []string, repo, verif string, tmo int) int {
 		lp := &LockProp{Discharged: []string{}, Unclaimed: []string{}}
 		for _, r := range pr.results {
 			if r.res.Status == "unsat" {
-				// claim only obligations that discharge well inside the quick timeout
-				if r.res.Seconds <= timeout.Seconds()/2 {
+				// claim only obligations that discharge well inside the quick timeout (20 s): 5 s here
+				if r.res.Seconds <= 5 {
 					lp.Discharged = append(lp.Discharged, r.o.Name)
 				} else {
 					lp.Unclaimed = append(lp.Unclaimed, r.o.Name)
